@@ -140,9 +140,20 @@ namespace vf
         else if (a == "--list") { for (auto &s : subs) std::cout << s.name << "\n"; return 0; }
       }
     const std::vector<Known> known_all = load_known(env("VERIF_KNOWN", "/verif/known_findings.jsonl"));
+    // a signature may name several independent root causes joined by '+'; it is "known" only if every part is listed
+    auto split_sig = [](const std::string &sig) {
+      std::vector<std::string> parts; size_t a = 0;
+      for (;;) { const size_t b = sig.find('+', a); parts.push_back(sig.substr(a, b == std::string::npos ? b : b - a)); if (b == std::string::npos) break; a = b + 1; }
+      return parts;
+    };
     auto is_known = [&](const std::string &sig) {
-      for (auto &k : known_all) if (k.status == "known" && k.property == property && k.signature == sig) return true;
-      return false;
+      for (const auto &part : split_sig(sig))
+        {
+          bool found = false;
+          for (auto &k : known_all) if (k.status == "known" && k.property == property && k.signature == part) found = true;
+          if (!found) return false;
+        }
+      return true;
     };
 
     if (!replay.empty())
@@ -187,7 +198,17 @@ namespace vf
         ::unlink(failfile.c_str());
         const std::string curfile = outdir + "/" + tag + ".current.json";
         bool shrinking_seen_failure = false;
+        int shrink_runs = 0;
+        auto shrink_t0 = std::chrono::steady_clock::now();
+        const int shrink_max_runs = std::atoi(env("VERIF_SHRINK_RUNS", "400").c_str());
+        const double shrink_max_s = std::atof(env("VERIF_SHRINK_SECONDS", "25").c_str());
         auto body = [&]() {
+          if (shrinking_seen_failure)
+            {
+              // bounded shrinking: once the budget is used up every further candidate "passes", so
+              // rapidcheck stops at the smallest failing case found so far (already saved on disk)
+              if (++shrink_runs > shrink_max_runs || std::chrono::duration<double>(std::chrono::steady_clock::now() - shrink_t0).count() > shrink_max_s) return;
+            }
           RcChooser ch;
           J c = s.gen(ch);
           Result r;
@@ -226,9 +247,10 @@ namespace vf
             {
               if (is_known(r.signature))
                 {
-                  if (!shrinking_seen_failure) { st.known_hits++; st.known_by_sig[r.signature]++; }
+                  if (!shrinking_seen_failure) { st.known_hits++; for (const auto &part : split_sig(r.signature)) st.known_by_sig[part]++; }
                   return; // listed finding: counted, search continues behind it
                 }
+              if (!shrinking_seen_failure) shrink_t0 = std::chrono::steady_clock::now();
               shrinking_seen_failure = true;
               J f = J::obj();
               f["property"] = property;
